@@ -6,6 +6,7 @@ require (
 	github.com/bolkedebruin/rdpgw v0.0.0
 	github.com/prometheus/client_golang v1.19.0
 	github.com/prometheus/client_model v0.6.0
+	golang.org/x/crypto v0.32.0
 )
 
 require (
@@ -20,7 +21,6 @@ require (
 	github.com/patrickmn/go-cache v2.1.0+incompatible // indirect
 	github.com/prometheus/common v0.50.0 // indirect
 	github.com/prometheus/procfs v0.13.0 // indirect
-	golang.org/x/crypto v0.32.0 // indirect
 	golang.org/x/net v0.23.0 // indirect
 	golang.org/x/oauth2 v0.18.0 // indirect
 	golang.org/x/sys v0.29.0 // indirect
@@ -31,3 +31,5 @@ require (
 replace github.com/bolkedebruin/rdpgw => /repo
 
 replace github.com/msteinert/pam/v2 => ./shim/pam
+
+replace github.com/patrickmn/go-cache => ./shim/go-cache
